@@ -7,7 +7,7 @@
 Exit codes: 0 property held on everything explored (KNOWN-FINDING lines possible),
             1 violation (a line  VIOLATION property=<id> replay=<path>  is printed),
             2 could not decide (build failure, missing tool)."""
-import hashlib, json, os, re, shutil, subprocess, sys, time, fcntl
+import atexit, hashlib, json, os, re, shutil, subprocess, sys, time, fcntl
 from concurrent.futures import ThreadPoolExecutor
 
 VERIF = os.path.dirname(os.path.dirname(os.path.abspath(__file__)))
@@ -197,10 +197,22 @@ def load_known():
 
 # ------------------------------------------------------------------------------------------------
 
+_scratch = set()   # per-run scratch directories under build/run: removed when the check ends (replay files have been copied to replays/ by then)
+
+
+def _drop_scratch():
+    for d in list(_scratch):
+        shutil.rmtree(d, ignore_errors=True)
+
+
+atexit.register(_drop_scratch)
+
+
 def run_job(job, binpath, prop, tier, seed, idx, known_ids, budget_s):
     """job: dict(bin, args[], cases, size, timeout). returns dict(result)"""
     rundir = os.path.join(BUILD, 'run', '%s-%s-%d' % (prop, tier, os.getpid()))
     os.makedirs(rundir, exist_ok=True)
+    _scratch.add(rundir)
     tag = '%s-%02d' % (job['bin'], idx)
     stats = os.path.join(rundir, tag + '.json')
     rout = os.path.join(rundir, tag + '.case')
